@@ -42,6 +42,14 @@ def plus_traces(f):
     return g
 
 
+def with_defaults(gen, prop):
+    """the property's own scenarios, then the constructor-defaults slice (parameter sets built with omitted seeds)"""
+    def g(w, tier):
+        return gen(w, tier) + scen_group.default_seeds_after_custom(w, prop, tier)
+    g.__name__ = gen.__name__
+    return g
+
+
 REGISTRY = {
     "C11": std(scen_util.gen_C11, ("shipped", "midint", "toyint"), batch=4),
     "C17": std(scen_util.gen_C17, ()),
@@ -49,7 +57,7 @@ REGISTRY = {
     "C08": plus_traces(std(scen_state.gen_C08)),
     "C09": both(std(scen_state.gen_C09), std(scen_state.gen_C09_lifetimes, ("shipped",))),
     "C10": std(scen_state.gen_C10),
-    "C16": std(scen_state.gen_C16, ("shipped", "toyint")),
+    "C16": std(with_defaults(scen_state.gen_C16, "C16"), ("shipped", "toyint")),
     "C05": std(scen_group.gen_C05_all),
     "C12": std(scen_group.gen_C12, ("edgen", "toyed")),
     "C13": std(scen_group.gen_C13_all, ("shipped", "midint", "toyint", "toyed")),
@@ -58,7 +66,7 @@ REGISTRY = {
     "C18": std(scen_group.gen_C18, ("shipped",)),
     "C01": plus_traces(std(scen_proto.gen_C01)),
     "C02": std(scen_proto.gen_C02),
-    "C03": plus_traces(std(scen_proto.gen_C03)),
+    "C03": plus_traces(std(with_defaults(scen_proto.gen_C03, "C03"))),
     "C04": std(scen_proto.gen_C04),
     "C06": std(scen_proto.gen_C06),
 }
